@@ -154,6 +154,9 @@ func (w *world) violate(sig, desc string) {
 		return
 	}
 	w.reported[sig] = true
+	if sig != "submission-prevented-multiroot" {
+		w.res.Counters["cap"]++ // the recorded multi-root finding must not stop the replay of the remaining behaviours
+	}
 	w.res.Violate(sig, fmt.Sprintf("[%s n=%d roots=%d] %s", w.t.role, w.t.n, len(w.t.objs), desc), w.beh, w.step)
 }
 
@@ -492,8 +495,8 @@ func main() {
 				}
 				continue
 			}
-			if res.Counters["violations"] > 40 {
-				continue
+			if res.Counters["cap"] > 40 {
+				continue // enough evidence on a broken tree; attack traces are still replayed
 			}
 			replay(b, roles[(i+int(*seed))%len(roles)], *n, *r, *fullEvery > 0 && i%*fullEvery == 0, res, i)
 		}
